@@ -107,6 +107,8 @@ def _case(draw):
         )
     case["drive"] = False
     case["origin"] = draw(st.booleans())
+    # scalar fields as they come out of a computation (wind_speed = np.hypot(u, v), a value read from an array ...)
+    case["scalar_type"] = draw(st.sampled_from(["python", "python", "np.float64", "np.float32", "np.int64", "0-d array"]))
     return case
 
 
@@ -176,8 +178,27 @@ def _build_parsed(case):
     )
 
 
+def _typed(case):
+    """The same forcing with its scalar fields in the drawn NumPy representation (lists stay lists of Python numbers)."""
+    t = case.get("scalar_type", "python")
+    if t == "python":
+        return case
+    import numpy as np
+
+    conv = {"np.float64": np.float64, "np.float32": np.float32, "np.int64": lambda v: np.int64(int(v)) if abs(v) >= 1 else np.float64(v),
+            "0-d array": lambda v: np.asarray(float(v))}[t]
+    c = dict(case)
+    for f in FIELDS + ("z0",):
+        if c[f] is not None and not isinstance(c[f], list):
+            c[f] = conv(c[f])
+    return c
+
+
 def check_case(case):
     out = Outcome()
+    case = _typed(case)
+    if case.get("scalar_type", "python") != "python":
+        out.label("numpy-scalar-fields")
     valid, n, steps = model(case)
     nlists = sum(isinstance(case[f], list) for f in FIELDS)
     maxlen = max([len(case[f]) for f in FIELDS if isinstance(case[f], list)] or [0])
